@@ -17,24 +17,52 @@ COMP_NOTE = (
 )
 
 CHECKS = {
-    "C01": ("exploration", "sim", "recorded sbatch/launch trace + multiset oracle (runtime monitoring under a deterministic process scheduler)",
+    "C01": ("exploration", "vsim", "recorded sbatch/launch trace + multiset oracle (runtime monitoring under a deterministic process scheduler)",
             "Real jade CLI processes on virtual hosts against simulated SLURM under seeded adversarial schedules; every batch configuration is read at the instant of its sbatch and every job start is announced by a probe; multiset counts (placements, batch identifiers, starts) must be <= 1 and complete at fault-free completion. Exploration is the right level: the quantifier is over schedules x inputs x parameters, reach comes from ~10^2-10^3 executions per run with distinct interleaving signatures.", "4 C01"),
-    "C02": ("exploration", "sim", "launch-instant observation of result rows on disk (runtime monitoring)",
+    "C02": ("exploration", "vsim", "launch-instant observation of result rows on disk (runtime monitoring)",
             "At every job-probe launch, with all simulated processes stopped, the driver reads the result rows on disk and requires every configured blocker to have one; HPC and local mode.", "4 C02"),
-    "C03": ("exploration", "sim", "differential runs of one DAG under k parameter sets x schedules against a topological reference evaluation",
+    "C03": ("exploration", "vsim", "differential runs of one DAG under k parameter sets x schedules against a topological reference evaluation",
             "Each DAG is executed under several batchings/limits/groups/modes/schedules; ResultsSummary of each completed run must equal the reference evaluation of the DAG and all variants of a DAG must agree.", "4 C03"),
-    "C04": ("exploration", "sim", "trace oracle over canceled rows and job starts vs. reference evaluation",
+    "C04": ("exploration", "vsim", "trace oracle over canceled rows and job starts vs. reference evaluation",
             "Chains and diamonds of flagged jobs crossing batch boundaries; canceled result <=> model, canceled => command never started, others started exactly once; both cancellation sites (node, submitter) must be exercised or the run is inconclusive.", "4 C04"),
-    "C05": ("exploration", "sim", "bounded-progress and lazy-round monitors over recorded rounds, squeue replies and status observations",
+    "C05": ("exploration", "vsim", "bounded-progress and lazy-round monitors over recorded rounds, squeue replies and status observations",
             "Liveness restated as bounded progress: every promoted recovery round must sbatch or complete; every promoted round that leaves a ready job behind must be justified by max-nodes from its own squeue replies; completion flag once, after results.json, with all results, no sbatch afterwards.", "4 C05"),
-    "C06": ("exploration", "sim", "scheduler-truth counters checked at every sbatch and every job start",
+    "C06": ("exploration", "vsim", "scheduler-truth counters checked at every sbatch and every job start",
             "The simulated scheduler knows how many batches are queued/running and how many probes are alive per node; limits must hold at every sbatch/launch and must actually be reached in the campaign (else inconclusive).", "4 C06"),
-    "C09": ("exploration", "sim", "public-API status observations at every lock-free instant + invariant/monotonicity monitor",
+    "C09": ("exploration", "vsim", "public-API status observations at every lock-free instant + invariant/monotonicity monitor",
             "The driver (not an actor) calls Cluster.deserialize + get_status_summary whenever the cluster lock has just been released, at idle instants and before each file mutation inside cancel-jobs/resubmit-jobs; invariants per observation, monotonicity between consecutive observations of one (re)submission.", "4 C09"),
+    "C07": ("exploration", "comp", "exhaustive small-scope enumeration of real submitter rounds + per-batch oracle on the files handed to sbatch",
+            "One real HpcSubmitter.run() per case with a recording stand-in at the sbatch boundary; EVERY job list of <= 3 jobs (quick) / <= 4 jobs (thorough) over a parameter grid, plus random larger lists and dry-run twins; the same per-batch oracle also judges every sbatch of the system campaigns. exhaustive:true in the evidence refers to the enumerated sub-scope only.", "4 C07"),
+    "C08": ("exploration", "vsim", "call/return histories with unique row ids, exactly-once multiset check, parse check at every lock-free instant",
+            "2-6 real writer processes and 1-3 real collector processes calling ResultsAggregator's public API under the deterministic scheduler at lock-operation granularity; every appended row is unique so a collected row identifies its write.", "4 C08"),
+    "C10": ("exploration", "vsim", "interval-based history checking of promote/demote + per-step version monitor + file hashes around stale writes",
+            "2-5 handles on 1-3 virtual hosts run seeded programs over Cluster's public API under the scheduler; mutual exclusion by definite/possible hold intervals, lost updates by a per-step on-disk version monitor, stale rejection by exception type and SHA-256 of the state files around every step of the attempt; plus the submitter-field monitor on full simulations.", "4 C10"),
+    "C11": ("fault_enumeration", "vsim", "fault enumeration by deterministic replay (kill / torn write / EDQUOT / lock failure / sbatch / squeue at every scheduling point of a round) + safety oracles over the faulty history",
+            "A reference run numbers the scheduling points of one submitter round; the same schedule is replayed with one fault at point k, then random continuations with further submitter attempts from other nodes and the user, under both lock-library behaviours; oracles: no job handed over or started twice, dependency order, result retention; after a squeue failure the run must reach the fault-free outcome. Quick stratifies over site classes, thorough enumerates every point.", "4 C11"),
+    "C12": ("exploration", "vsim", "fault injection (node kills random and enumerated, sbatch failures, cycles) + accounting oracle against driver ground truth",
+            "The driver knows which probes really exited and with what code; after the documented recovery the final results must account for every job: missing list exact, no fabricated or dropped result, justified cancels only, no start with a missing blocker, completion reached.", "4 C12"),
+    "C13": ("exploration", "vsim", "resubmission scenarios with closure/selection reference model, before/after result comparison, refusal monitors",
+            "Completed submissions (incl. missing jobs from killed nodes, with/without reports) followed by resubmit-jobs with random flag combinations, repeated resubmissions, and the command on incomplete submissions (idle / while another process is submitter, same or other host).", "4 C13"),
+    "C14": ("exploration", "vsim", "trace oracle: no sbatch after the first canceled observation, scancel for every persisted id, result retention",
+            "cancel-jobs issued at random moments of running submissions followed by further try-submit-jobs / show-status rounds; scancel kills nodes at driver-chosen points.", "4 C14"),
+    "C15": ("exploration", "vsim", "boundary-event monitor on stage configuration, submit-next-stage commands and pipeline.json",
+            "Pipelines of 1-4 stages run with `jade pipeline submit` in HPC and local mode; the driver follows the current stage and checks order, once-only and bookkeeping clauses on boundary events.", "4 C15"),
+    "C16": ("exploration", "vsim", "lifecycle-command probes reporting host/node/env/instant + order and count oracle",
+            "All 16 subsets of the four lifecycle commands x local/HPC; each command is a probe that announces itself to the driver, which knows what has been handed to sbatch, what runs where and which results are on disk at that instant.", "4 C16"),
+    "C17": ("exploration", "comp", "generator over the public models + round-trip comparison + single-invalidity injection with a recording sbatch boundary",
+            "Thousands of generated configurations dumped and reloaded through the real functions; each valid one must be accepted (reaching sbatch), each single injected invalidity must raise before any sbatch.", "4 C17"),
+    "C18": ("exploration", "comp", "expectation tables vs real scripts / real submitter rounds against scripted squeue, sbatch and flaky executables",
+            "All 512 optional-field subsets (exhaustive) for the script; random scheduler listings over the full SLURM vocabulary, sbatch reply kinds and retry sequences served by real scripted executables to the real code; executions counted at the process boundary.", "4 C18"),
+    "C19": ("exploration", "vsim", "process-boundary recording of argv/env by the job probe + stdio files + result rows",
+            "Hostile command lines (quoting, whitespace, special characters, three renderings) run through the real submit-jobs -> sbatch -> run-jobs path; the probe reports what it was really started with.", "4 C19"),
+    "C20": ("exploration", "comp", "unique-id event histories from concurrent real writer processes, injected sample sequences, generated result sets",
+            "Events: multiset equality, order, idempotence of EventsSummary over events written concurrently by forked processes; statistics: true min/max/mean of injected samples in the JSON written by finalize; tallies through the real completion step and on every completed simulation.", "4 C20"),
 }
 
 ENGINES = [
-    {"name": "vsim", "path": "harness/sim", "serves_properties": ["C01", "C02", "C03", "C04", "C05", "C06", "C09"],
+    {"name": "comp", "path": "harness/comp", "serves_properties": ["C07", "C17", "C18", "C20"],
+     "kind_free_text": "runtime monitoring of components: JADE's real classes/functions driven in-process (or against real scripted executables) with generators, reference expectations and monitors at their boundary"},
+    {"name": "vsim", "path": "harness/sim", "serves_properties": ["C01", "C02", "C03", "C04", "C05", "C06", "C08", "C09", "C10", "C11", "C12", "C13", "C14", "C15", "C16", "C19"],
      "kind_free_text": "runtime monitoring: real JADE CLI processes under a deterministic process scheduler (sys.addaudithook scheduling points, virtual time, virtual hosts, source-free failpoints), simulated SLURM executables, job probes, fork server; oracles over the recorded boundary trace"},
 ]
 
@@ -55,7 +83,7 @@ def main():
             "replay_cmd_template": f"./check {pid} --replay {{path}}",
             "engine": engine,
             "level_claimed": {"category": level, "text": text, "design_ref": f"DESIGN.md section {ref}"},
-            "level_note": SIM_NOTE if engine == "vsim" else COMP_NOTE,
+            "level_note": SIM_NOTE if engine in ("vsim", "sim") else COMP_NOTE,
             "technique": technique,
         })
     m = {
